@@ -5,7 +5,9 @@ namespace KinModel.Drv.C04
 open KinModel.Drv KinModel.DocValidate
 
 /-- request: {"doc": <OpenAPI document as JSON>, "detach": ["#/components/…", …] (references the runner
-un-resolves after loading), "opts": {exDisabled, defDisabled, fmtEnabled, patDisabled, extProhibited, allowed:[…]}} -/
+un-resolves after loading), "optlist": [[<constructor name>, <argument>…], …] (the option list given to Validate,
+in order), "before": [{"doc", "detach", "optlist"}, …] (Validate calls made earlier in the same process)}.
+Older replay files carry "opts": {exDisabled, …, allowed:[…]} and "explicit" instead of "optlist". -/
 structure Env where
   root : Json
   detach : List String
@@ -241,31 +243,57 @@ partial def allNodes (d : Doc) : List Doc := d :: d.kids.flatMap (fun kc => allN
 
 def kindName (k : Kind) : String := (toString (repr k)).replace "KinModel.DocValidate.Kind." ""
 
-def parseOpts (j : Json) : Opts :=
-  { exDisabled := getBool j "exDisabled", defDisabled := getBool j "defDisabled", fmtEnabled := getBool j "fmtEnabled",
-    patDisabled := getBool j "patDisabled", extProhibited := getBool j "extProhibited", allowed := strs (getArr j "allowed") }
+/-- the option list of a call; for replay files of earlier rounds it is rebuilt from the "opts" record the way
+the runner did (a set flag gives its `Disable…`/`Enable…` constructor, "explicit" adds the opposite one for an
+unset flag, a non-empty allow-list gives `AllowExtraSiblingFields`) -/
+def optListOf (j : Json) : List OptCall :=
+  match j.getObjVal? "optlist" with
+  | .ok (.arr xs) => xs.toList.map (fun x => match asArr x with | n :: args => (asStr n, args.map asStr) | [] => ("", []))
+  | _ =>
+    let o := getD j "opts" (Json.mkObj [])
+    let explicit := getBool j "explicit"
+    let one : String → String → String → List OptCall := fun k on off =>
+      if getBool o k then [(on, [])] else if explicit then [(off, [])] else []
+    one "exDisabled" "DisableExamplesValidation" "EnableExamplesValidation" ++
+    one "defDisabled" "DisableSchemaDefaultsValidation" "EnableSchemaDefaultsValidation" ++
+    one "fmtEnabled" "EnableSchemaFormatValidation" "DisableSchemaFormatValidation" ++
+    one "patDisabled" "DisableSchemaPatternValidation" "EnableSchemaPatternValidation" ++
+    one "extProhibited" "ProhibitExtensionsWithRef" "AllowExtensionsWithRef" ++
+    (let al := strs (getArr o "allowed"); if al.isEmpty then [] else [("AllowExtraSiblingFields", al)])
 
 def dedup (l : List String) : List String := l.eraseDups
 
 def handle (j : Json) : Json :=
   let env : Env := { root := getD j "doc" Json.null, detach := strs (getArr j "detach") }
-  let o := parseOpts (getD j "opts" (Json.mkObj []))
+  let ol := optListOf j
+  let o := optsOf Gen.optionCtors ol          -- the settings the code computes from the list
+  let so := specOptsOf ol                     -- the settings the property assigns to it
   let d := mkRoot env
   let nodes := allNodes d
-  let m := validate codeTable o d
-  let s := specVerdict o d
+  -- the calls made before in the process: what they leave in the pattern cache (nothing, unless the table says so)
+  let before := getArr j "before"
+  let cache := before.foldl (fun c b =>
+    cacheAfter codeTable c (optsOf Gen.optionCtors (optListOf b))
+      (mkRoot { root := getD b "doc" Json.null, detach := strs (getArr b "detach") })) []
+  let m := validateIn codeTable cache o d
+  let s := specVerdict so d
+  let o := so
   let excl :=
     (if nodes.any excl7Node then ["ExclTemplateNames"] else []) ++
     (if nodes.any (exclBelow [(.schema, "xml"), (.schema, "discriminator")] o) then ["ExclExtraFieldsUnchecked"] else []) ++
     (if nodes.any (exclInnerNode o) then ["ExclInnerRefSiblings"] else []) ++
-    (if nodes.any (exclBelow [(.pathItem, "servers"), (.operation, "servers")] o) then ["ExclNestedServersUnchecked"] else []) ++
-    (if nodes.any (fun n => exclEncNode codeTable o n || exclBelow [(.encoding, "headers")] o n) then ["ExclEncodingHeaderErrorsDropped"] else [])
+    (if nodes.any (exclBelow [(.encoding, "headers")] o) then ["ExclEncodingHeaderErrorsDropped"] else [])
   let viols := nodes.flatMap (fun n => (violations n).map (fun v =>
     s!"{v.rule}@{kindName n.kind}" ++ (if enabled o v then "" else ":off")))
   let branches := dedup (viols ++
     (if o.exDisabled then ["opt.exDisabled"] else []) ++ (if o.defDisabled then ["opt.defDisabled"] else []) ++
     (if o.fmtEnabled then ["opt.fmtEnabled"] else []) ++ (if o.patDisabled then ["opt.patDisabled"] else []) ++
-    (if o.extProhibited then ["opt.extProhibited"] else []) ++ (if o.allowed.isEmpty then [] else ["opt.allowed"]))
+    (if o.extProhibited then ["opt.extProhibited"] else []) ++ (if o.allowed.isEmpty then [] else ["opt.allowed"]) ++
+    (if o.customRegex then ["opt.customRegex"] else []) ++
+    (if ol.length ≥ 2 then [s!"optlist.len={ol.length}"] else []) ++
+    (if (ol.map (·.1)).eraseDups.length < ol.length then ["optlist.repeated-constructor"] else []) ++
+    (if ol.any (fun c => ol.any (fun c' => c.1 != c'.1 && (c.1.drop 6 == c'.1.drop 7 || c.1.drop 7 == c'.1.drop 6))) then ["optlist.enable-and-disable"] else []) ++
+    (if before.isEmpty then [] else [s!"before.calls={before.length}"]))
   jobj [
     ("model", jobj [("ok", Json.bool m), ("unmodelled", Json.bool (nodes.any valsUnmodelled))]),
     ("spec", Json.str (match s with | .accept => "accept" | .reject => "reject" | .unspecified => "unspecified")),
